@@ -289,3 +289,15 @@ def reorderGlyphs(font: ttLib.TTFont, new_glyph_order: List[str]):
             cff_table.cff.topDictIndex[0].CharStrings.charStrings = {
                 k: charstrings.get(k) for k in new_glyph_order
             }
+            # FDSelect is indexed by glyph ID, like the CharStrings INDEX of a
+            # font read from a binary file: bring both into the new order.
+            top_dict = cff_table.cff.topDictIndex[0]
+            cs = top_dict.CharStrings
+            if cs.charStringsAreIndexed and hasattr(top_dict, "FDSelect"):
+                old_indices = [charstrings[k] for k in new_glyph_order]
+                index = cs.charStringsIndex
+                index.items = [index[i] for i in old_indices]
+                fd_select = top_dict.FDSelect
+                fd_select.format = None
+                fd_select.gidArray = [fd_select.gidArray[i] for i in old_indices]
+                cs.charStrings = {k: i for i, k in enumerate(new_glyph_order)}
